@@ -19,7 +19,7 @@ from . import c09_eval as E
 from . import c09_gen as G
 
 MANIFEST = {
-    "text": "Coq theorems about an executable model of stix2.equivalence.pattern (66 theorems in Props/C09.v + 23 in Props/C09Src.v, all closed under the global "
+    "text": "Coq theorems about an executable model of stix2.equivalence.pattern (66 theorems in Props/C09.v + 24 in Props/C09Src.v, all closed under the global "
             "context): the comparators are lawful total preorders, hence the reported relation is reflexive, symmetric and "
             "transitive and find_equivalent_patterns is the filter of the pairwise test; every pass of the normaliser "
             "(flatten, order/dedupe, absorption with its deletion loop, DNF with root-type pruning, special values, settle) "
@@ -42,7 +42,10 @@ MANIFEST = {
             "b64_decode, inet_aton, py_int, find_cp, the IPv4 masking, special_kind, is_matches; ip_canon true inside the "
             "hypothesis respects_cidr6), so the soundness theorems cannot see an error in them; they are anchored on known "
             "vectors (Props/C09.v anchor_*: RFC 4648, glibc inet_aton forms, CIDR masking) and exercised by the "
-            "correspondence run.",
+            "correspondence run.  PATH STEPS: the model's object paths are the raw values object_path_to_raw_values yields, in "
+            "which the any-index step [*] and a property named * (quoted key) are the same string: soundness is about ASTs in "
+            "which the two are already identified, and the code does report x:y[*] and x:y.'*' equivalent (known finding "
+            "C09-star-key-vs-any-index, found by the independent evaluator).",
     "design_ref": "DESIGN.md 6/C09, Appendix A.5",
     "note": "Source-text tie: translators/tr_patterneq.py reads, on every run, from the ast of stix2/equivalence/pattern the "
             "type-order tables, the numeric cases of constant_cmp, the fields simple_comparison_expression_cmp compares and "
@@ -52,7 +55,8 @@ MANIFEST = {
             "flag logic of ChainTransformer / SettleTransformer, the MATCHES and StringConstant guards, the arithmetic of "
             "_mask_bytes (as Gallina functions), hex_cmp (on decoded bytes) / bin_cmp / bool_cmp / list_cmp (lexicographic on the "
             "sorted members) / generic_cmp / iter_lex_cmp / iter_in, repeats_cmp / within_cmp (the seconds as they are, no int()) / "
-            "startstop_cmp, that both DNF transformers transform their new terms again, how stix_version reaches the parser, "
+            "startstop_cmp, object_path_component_cmp (indices before keys, never as text) / object_path_cmp / "
+            "object_path_to_raw_values, that both DNF transformers transform their new terms again, how stix_version reaches the parser, "
             "the bodies of equivalent_patterns / find_equivalent_patterns (every member "
             "examined, no cache); Props/C09Src.v proves for each that the model's function is the one these choices denote "
             "(source_* theorems) and refutes the recognised alternatives; an unrecognised text aborts the translator naming "
@@ -113,7 +117,9 @@ WITNESS_UNSOUND = [
     ("C09-specials-hex-binary-constant", "[windows-registry-key:key = b'QUJD']", "[windows-registry-key:key = b'qujd']"),
     ("C09-ip-canonicalises-regex", "[ipv4-addr:value MATCHES '10.0.0.1/8']", "[ipv4-addr:value MATCHES '10.0.0.0/8']"),
     ("C09-regkey-lowercases-regex", "[windows-registry-key:key MATCHES '\\\\D']", "[windows-registry-key:key MATCHES '\\\\d']"),
+    ("C09-star-key-vs-any-index", "[a:b[*] = 1]", "[a:b.'*' = 1]"),
 ]
+
 # (finding id, p, q): a listed rewrite applied at the root that is not recognised
 WITNESS_UNRECOGNISED = [
     ("C09-absorption-qualified-operand", "[a:x=1] REPEATS 2 TIMES", "[a:x=1] REPEATS 2 TIMES OR ([a:x=1] REPEATS 2 TIMES AND [c:z=3])"),
@@ -336,7 +342,19 @@ def classify_unsound(p, q, seq):
     return cls if cls in ACTIVE else None
 
 
+def star_keys_as_any_index(e):
+    out = e
+    for path, x in G.positions(e):
+        if x[0] == "atom" and ("q", "*") in x[2]:
+            out = G.replace_at(out, path, ("atom", x[1], [("star",) if s == ("q", "*") else s for s in x[2]], x[3], x[4], x[5]))
+    return out
+
+
 def _classify_unsound(p, q, seq):
+    if "C09-star-key-vs-any-index" in ACTIVE:
+        ps, qs = star_keys_as_any_index(p), star_keys_as_any_index(q)
+        if (ps != p or qs != q) and E.matches(ps, seq) == E.matches(qs, seq):
+            return "C09-star-key-vs-any-index"
     pv, qv = as_pinned_visitor(p), as_pinned_visitor(q)
     if "C09-visitor-drops-not" in ACTIVE and (pv != p or qv != q) and E.matches(pv, seq) == E.matches(qv, seq):
         return "C09-visitor-drops-not"
@@ -358,13 +376,16 @@ def _classify_unsound(p, q, seq):
 # --------------------------------------------------------------------------
 # model evaluation
 
+EVAL_TIMEOUT = [1200]
+
+
 def eval_shards(tag, shards):
     """shards: list of (defs text, [terms]) -> list of lists of result lines"""
     def one(k):
         defs, terms = shards[k]
         if not terms:
             return []
-        return common.coq_eval_lines("%s%d" % (tag, k), HEADER + defs, terms, shard=len(terms), timeout=1200)
+        return common.coq_eval_lines("%s%d" % (tag, k), HEADER + defs, terms, shard=len(terms), timeout=EVAL_TIMEOUT[0])
     with ThreadPoolExecutor(max_workers=common.NCPU) as ex:
         return list(ex.map(one, range(len(shards))))
 
@@ -467,6 +488,7 @@ def check(run):
     nrule = 3000 if thorough else 320
     nbound = 1500 if thorough else 120
     nnear = 400 if thorough else 50
+    EVAL_TIMEOUT[0] = 3000 if thorough else 1200
     nver = 200 if thorough else 40
     import random as _random
     import time as _time
@@ -490,7 +512,9 @@ def check(run):
         "positionally, by default) with version-specific vocabulary (the 2.1-only keyword EXISTS as a 2.0 property name): no "
         "raise on a pattern the validator of that version accepts, reflexive, independent of how the version is handed "
         "over, equivalent_patterns = find_equivalent_patterns pair by pair; WITHIN windows with a fractional number of "
-        "seconds (equal integer parts) around several observations, differing only in the window; "
+        "seconds (equal integer parts) around several observations, differing only in the window; object paths with a "
+        "list index next to the quoted key spelt the same (x:y[12] / x:y.'12', x:y[*] / x:y.'*': the latter pair is "
+        "reported equivalent by the current code, known finding C09-star-key-vs-any-index); "
         "every normal form is also written back as pattern text and compared with the original by "
         "the independent evaluator; a case is non-trivial when the pattern(s) parsed, normalised and contain a "
         "compound node" % (depth, nrule, nbound, nnear, nver))
@@ -635,7 +659,7 @@ def check(run):
     except RuntimeError as e:
         model_ok = False
         lines = []
-        run.broken.append(Broken("correspondence", "model evaluation failed", {"error": str(e)[-1500:]}))
+        run.broken.append(Broken("correspondence", "model evaluation failed: " + " ".join(str(e).split())[-160:], {"error": str(e)[-1500:]}))
     compared = {"norm": 0, "equiv": 0, "find": 0}
     if model_ok:
         for sh in range(nshards):
@@ -768,7 +792,16 @@ def check(run):
                 break
         else:
             continue
-        if n % 5 == 4:
+        if n % 5 == 3:
+            # an index step next to the quoted key spelt the same: x:y[12] / x:y.'12', x:y[*] / x:y.'*'
+            ty = near_rng.choice(G.TYPES)
+            step = near_rng.choice([("i", 12), ("i", 0), ("i", 1), ("star",)])
+            tail = [("k", near_rng.choice(G.PROPS))] if near_rng.random() < 0.5 else []
+            at = ("atom", ty, [("k", near_rng.choice(G.PROPS)), step] + tail, "=", False, ("int", near_rng.choice([1, 2, 80]), False))
+            extra_at = g2.atom(ty)
+            base = ("obs", at) if near_rng.random() < 0.5 else ("obs", (near_rng.choice(["and", "or"]), [at, extra_at]))
+            vs = G.path_variants(near_rng, base)
+        elif n % 5 == 4:
             # a WITHIN window around two observations, alone or next to the drawn pattern: only the window varies
             ty = near_rng.choice(G.TYPES)
             two = (near_rng.choice(["oand", "ofby"]), [("obs", g2.atom(ty)), ("obs", g2.atom(near_rng.choice([ty, near_rng.choice(G.TYPES)])))])
@@ -914,11 +947,13 @@ def check(run):
                 kw_fine = not is_exc(by_call.get(("equiv", c["p"], c["q"], ver, "kw")))
                 if r.get("exc") != "CaseTimeout" and ((f != "kw" and kw_fine) or
                                                       (f == "kw" and ver == "2.0" and c["p"] not in vrisky)):
-                    n_v += 1
+                    fid = classify_crash(None, "parse", r) if f == "kw" else None
+                    if fid is None:
+                        n_v += 1
                     run.violations.append(Violation(
                         "equivalent_patterns(.., stix_version %s handed over as %s) raises %s (%s) on %r / %r, which the %s validator accepts"
                         % (ver, f, r["exc"], r.get("where"), c["p"], c["q"], ver),
-                        {"kind": "equiv-crash", "p": c["p"], "q": c["q"], "ver": ver, "form": f, "exc": r}))
+                        {"kind": "equiv-crash", "p": c["p"], "q": c["q"], "ver": ver, "form": f, "exc": r}, finding=fid))
                 continue
             if c["q"] == c["p"] and r["r"] is not True:
                 n_v += 1
